@@ -254,7 +254,7 @@ func TestVerifSchedules(t *testing.T) {
 				}
 				a.segs++
 				return true
-			case <-time.After(5 * time.Second):
+			case <-time.After(15 * time.Second):
 				deadlock = a.name
 				return false
 			}
@@ -377,7 +377,7 @@ func TestVerifSchedules(t *testing.T) {
 		cs.Distinct(strings.Join(sched, ",") + fmt.Sprint(max, casMode))
 		if deadlock != "" {
 			cs.Op(op, "deadlock")
-			cs.Violation("C07", "sched.deadlock", fmt.Sprintf("operation %s, released after schedule [%s], neither reached its next yield point nor finished within 5 s", deadlock, strings.Join(sched, ",")), cs.CaseOps())
+			cs.Violation("C07", "sched.deadlock", fmt.Sprintf("operation %s, released after schedule [%s], neither reached its next yield point nor finished within 15 s", deadlock, strings.Join(sched, ",")), cs.CaseOps())
 			return
 		}
 		vQuiesce(c)
